@@ -38,7 +38,11 @@ import (
 )
 
 const (
-	MaxPacketLen     = 1024
+	// MaxPacketLen must hold a request with numStoredCookies cookie/placeholder
+	// fields (and thus the response with as many cookies) for the cookies issued
+	// by ntske.ServerCookie.EncryptWithNonce (124 bytes):
+	// 48 + 36 + 8*(4+124) + 40 = 1148 bytes.
+	MaxPacketLen     = 1280
 	numStoredCookies = 8
 	ntpPacketLen     = 48
 )
